@@ -374,6 +374,16 @@ where
     for &a in &lat { for &b in &lat { pairs.push((a, b)); } }
     for _ in 0..lat.len() { pairs.push((rng.pattern(l.w), rng.pattern(l.w))); }
     let keep = if l.w == 8 { if c.tier == "thorough" { pairs.len() } else { 300 } } else { c.nprog };
+    // systematic two-step programs  r1 = a; r2 = op(r1)  for every unary operation over the boundary lattice
+    // (all values for the 8-bit layouts)
+    let uvals: Vec<u128> = if l.w == 8 { (0..256).collect() } else { gen::lattice(l, false) };
+    for (ui, op) in UNOPS.iter().enumerate() {
+        for &a in &uvals {
+            let steps = vec![serde_json::json!({"op":"load","d":1,"rawv":{"raw": format!("{}", a)}}),
+                             serde_json::json!({"op":*op,"d":2,"a":1,"fm":ui % 2})];
+            program::<F>(c, &mut rng, Some(&steps));
+        }
+    }
     for (oi, op) in BINOPS.iter().chain(INTOPS.iter()).enumerate() {
         let mut sel = pairs.clone();
         if sel.len() > keep {
